@@ -769,6 +769,12 @@ pub fn gen_c08(thorough: bool, seed: u64) -> Vec<Episode> {
         }
         eps.push(Episode { n, tys: "both", ops });
     }
+    // a complete run for n = 5 (2^32 items): only counted, by the fixed-size type (a few seconds);
+    // the dynamic type too in the thorough tier
+    eps.push(Episode { n: 5, tys: if thorough { "both" } else { "lutn" }, ops: vec![json!({"op": "iter_count", "n": 5, "d": 0})] });
+    for n in 0..=4usize {
+        eps.push(Episode { n, tys: "both", ops: vec![json!({"op": "iter_count", "n": n, "d": 0})] });
+    }
     // first steps of the iterator for larger sizes
     for n in 5..=12usize {
         let mut ops = vec![json!({"op": "iter_start", "n": n})];
@@ -1661,6 +1667,19 @@ pub fn gen_canon(thorough: bool, seed: u64, c05: bool) -> Vec<Episode> {
             eps.push(canon_episode(n, &on, &all_kinds, n <= 3 || c05, c05));
         }
     }
+    // every 3-variable function embedded in 7 and 8 variables, on the top three variables (unions of
+    // aligned index intervals) and on the low three (word-periodic): small orbits, exact and cheap for N
+    for n in [7usize, 8] {
+        let stride = if thorough { 1 } else if n == 7 { 2 } else { 4 };
+        for g in (0..256u64).step_by(stride) {
+            let top = on_from_fn(n, |x| (g >> (x >> (n - 3))) & 1 == 1);
+            eps.push(canon_episode(n, &top, &["n"], c05, false));
+            if g % 4 == (seed % 4) {
+                let low = on_from_fn(n, |x| (g >> (x & 7)) & 1 == 1);
+                eps.push(canon_episode(n, &low, &["n"], c05, false));
+            }
+        }
+    }
     let scale = |q: usize, t: usize| if thorough { t } else { q };
     for n in (max_exh + 1)..=8usize {
         let tables = structured(n, &mut r);
@@ -1678,8 +1697,8 @@ pub fn gen_canon(thorough: bool, seed: u64, c05: bool) -> Vec<Episode> {
                 4 => (100, 100, 100),
                 5 => (scale(16, 300), scale(60, 600), scale(100, 600)),
                 6 => (scale(3, 30), scale(20, 200), scale(60, 300)),
-                7 => (scale(1, 3), scale(3, 20), scale(20, 100)),
-                _ => (scale(0, 1), scale(1, 3), scale(8, 40)),
+                7 => (scale(1, 3), scale(3, 20), scale(24, 200)),
+                _ => (scale(0, 1), scale(1, 3), scale(12, 120)),
             }
         };
         for (kind, cnt) in [("npn", c_npn), ("p", c_p), ("n", c_n)] {
@@ -1693,7 +1712,12 @@ pub fn gen_canon(thorough: bool, seed: u64, c05: bool) -> Vec<Episode> {
                     4 => {
                         let m = r.gen_range(1..n);
                         let g = random_on(m, &mut r);
-                        on_from_fn(n, |x| g.binary_search(&(x & (dom(m) - 1))).is_ok())
+                        if k % 16 < 8 {
+                            on_from_fn(n, |x| g.binary_search(&(x & (dom(m) - 1))).is_ok())
+                        } else {
+                            // ... or depending on the TOP m variables only (unions of aligned index intervals)
+                            on_from_fn(n, |x| g.binary_search(&(x >> (n - m))).is_ok())
+                        }
                     }
                     // !x_top & g, x_top & g: all the action in one half of the table
                     5 => {
@@ -1717,7 +1741,7 @@ pub fn gen_canon(thorough: bool, seed: u64, c05: bool) -> Vec<Episode> {
                     }
                 };
                 let heavy = kind == "npn" && n >= 6;
-                eps.push(canon_episode(n, &f, &[kind], !heavy, c05 || (k % 8 == 0 && n <= 5)));
+                eps.push(canon_episode(n, &f, &[kind], c05 || !heavy, c05 || (k % 8 == 0 && n <= 5)));
             }
         }
     }
